@@ -337,7 +337,10 @@ var c01Tiny = func() (t []string) {
 			t = append(t, a+b)
 		}
 	}
-	return append(t, "\"\"\"", "[]:", "::", ":::", "%25", "...", "0.0", "1/", "/1", "\"\\\"", "\\u", "\"\\u", "null", "nul", "0s", "1h0", "-0")
+	return append(t, "\"\"\"", "[]:", "::", ":::", "%25", "...", "0.0", "1/", "/1", "\"\\\"", "\\u", "\"\\u", "null", "nul", "0s", "1h0", "-0",
+		// short well-formed pieces behind a single unexpected delimiter
+		":1.2.3.4", ":1.2.3.4%eth0", "[:1.2.3.4]:53", "1.2.3.4%eth0:80", "[1.2.3.4%a:b]:80", "1.2.3.4:", ".1.2.3.4", "1.2.3.4.", "/1.2.3.4", "1.2.3.4/", "::1/", "%eth0",
+		"[::1]", "[::1", "::1]", "[]:1", ":53", "a:", "@a", "a@", "#a", "a#", "1d", "1.5d", "-1d", "d1")
 }()
 
 // c01Override, when set, is what the next generated string / []byte argument is.
